@@ -214,6 +214,8 @@ def emit_constants(proj, cls, own, real='double', report=None):
     prefix = '' if own else cls + '_'
     names = set(ci.consts)
     out = ['/* constants of %s (R12: copied from %s) */' % (cls, header_of(cls))]
+    for en in ci.enum_names:
+        out.append('typedef int %s%s; /* enum */' % (prefix, en))
     src_defs = {}
     srcrel = source_of(cls)
     if os.path.exists(os.path.join(proj.repo, srcrel)):
@@ -375,6 +377,8 @@ def extract_function(proj, fi, functable, real='double', srcrel=None, select=Non
     ret = fi.ret_ctype
     b = body_txt
     b = tr.rule_remove(b)
+    b = tr.rule_message_strings(b)
+    b = tr.rule_istringstream(b)
     b = tr.rule_throw(b, ret)
     b = tr.rule_numeric_limits(b)
     str_names = {}
